@@ -42,10 +42,11 @@ fn derivative_f64(text: &str, path: usize, idx: usize) -> Result<FlatEx<f64>, St
         0 => FlatEx::<f64>::parse(text).map_err(e)?.partial(idx).map_err(e),
         1 => FlatEx::from_deepex(DeepEx::<f64>::parse(text).map_err(e)?.partial(idx).map_err(e)?).map_err(e),
         2 => FlatEx::from_deepex(FlatEx::<f64>::parse(text).map_err(e)?.to_deepex().map_err(e)?.partial(idx).map_err(e)?).map_err(e),
-        _ => FlatEx::<f64>::from_deepex(DeepEx::<f64>::parse(text).map_err(e)?).map_err(e)?.partial(idx).map_err(e),
+        3 => FlatEx::<f64>::from_deepex(DeepEx::<f64>::parse(text).map_err(e)?).map_err(e)?.partial(idx).map_err(e),
+        _ => FlatEx::<f64>::parse_wo_compile(text).map_err(e)?.partial(idx).map_err(e),
     }
 }
-const PATH_NAMES: [&str; 4] = ["FlatEx::partial", "DeepEx::partial", "flat->deep->partial", "deep->flat->partial"];
+const PATH_NAMES: [&str; 5] = ["FlatEx::partial", "DeepEx::partial", "flat->deep->partial", "deep->flat->partial", "FlatEx::parse_wo_compile->partial"];
 
 fn float_case(rng: &mut Rng, st: &mut Stats) {
     let with_nondiff = rng.chance(1, 6);
@@ -61,7 +62,7 @@ fn float_case(rng: &mut Rng, st: &mut Stats) {
     st.bump("cases");
     st.class((tree.shape_key(&table), text.len()));
     let wrt = rng.below(vars.len());
-    let path = rng.below(4);
+    let path = rng.below(5);
     let d = catch(|| derivative_f64(&text, path, wrt));
     let d = match d {
         Err(m) => {
